@@ -155,6 +155,11 @@ def draw_history(cs, cfg):
     else:
         fam = 1 if sc["family"] == 1 else 0
         sc["F"] = C10.draw_functional(cs, {"family": fam, "kind": sc["kind"], "composite": sc["composite"]})
+        if sc["F"]["F"] in ("jac", "hess") and sc["F"].get("keep_op") and cs.bool("kept_operator_in_solve", 1, 2):
+            # an operator the caller keeps is, half of the time, what it hands to an iterative solve (whose backward
+            # pass substitutes into the operator): retention ON the kept operator is replaced at every call
+            sc["F"]["product"] = "solve"
+            sc["F"]["solve_method"] = cs.choice(["bicgstab", "cg"], "kept_solve_method")
     # "bwdg": the graph-recording backward pass is the LAST thing the caller does with the result (the third usage the
     # statement names); in "bwd2" a further, plain backward pass through the recorded graph follows
     sc["usage"] = ["fwd", "bwd", "bwd2", "bwdg"][cs.weighted([1, 2, 2, 2], "usage")]
